@@ -140,36 +140,40 @@ def toRanges (l : List (Nat × Nat)) : Option (List Range) := toRangesWith implH
 
 /-! ## format 4: arrays -/
 
-/-- `cp_to_gid_map.get(&cp)` of the `FnvHashMap` collected from the list (a later pair wins) -/
-def gidOf (m : List (Nat × Nat)) (cp : Nat) : Option Nat :=
-  (m.reverse.find? (fun p => p.1 == cp)).map (·.2)
+/-- `cp_to_gid_map.get(&cp)` of the `FnvHashMap` collected from the list (a later pair wins);
+`mr` = the list reversed (computed once per subtable) -/
+def gidOfR (mr : List (Nat × Nat)) (cp : Nat) : Option Nat :=
+  (mr.find? (fun p => p.1 == cp)).map (·.2)
+
+def gidOf (m : List (Nat × Nat)) (cp : Nat) : Option Nat := gidOfR m.reverse cp
 
 /-- `for cp in start_cp..=end_cp { gid = map.get(&cp).ok_or(ERROR_OTHER)?; embed(gid as u16) }` -/
-def glyphIdsGo (m : List (Nat × Nat)) : Nat → Nat → Option (List Nat)
+def glyphIdsGo (mr : List (Nat × Nat)) : Nat → Nat → Option (List Nat)
   | 0, _ => some []
   | k + 1, cp =>
-    match gidOf m cp with
+    match gidOfR mr cp with
     | none => none
-    | some g => (glyphIdsGo m k (cp + 1)).map (g % 65536 :: ·)
+    | some g => (glyphIdsGo mr k (cp + 1)).map (g % 65536 :: ·)
 
-def glyphIdsFor (m : List (Nat × Nat)) (s e : Nat) : Option (List Nat) := glyphIdsGo m (e + 1 - s) s
+def glyphIdsFor (mr : List (Nat × Nat)) (s e : Nat) : Option (List Nat) := glyphIdsGo mr (e + 1 - s) s
 
 /-- `serialize_rangeoffset_glyph_ids`: rows (start, end, idDelta, idRangeOffset) and the glyph id
 array for ranges `i, i+1, …` of `segCount`; `nIds` glyph ids written so far
 (`s.head() - (id_range_offset + i*2)` = `((segCount - i) + nIds) * 2`, stored `as u16`).
-`none` = `SERIALIZE_ERROR_OTHER` (a code point of a glyphIdArray range is not in the list). -/
-def emitRows (m : List (Nat × Nat)) (segCount : Nat) : Nat → Nat → List Range → Option (List Row × List Nat)
+`none` = `SERIALIZE_ERROR_OTHER` (a code point of a glyphIdArray range is not in the list).
+`mr` = the (code point, glyph) list reversed. -/
+def emitRows (mr : List (Nat × Nat)) (segCount : Nat) : Nat → Nat → List Range → Option (List Row × List Nat)
   | _, _, [] => some ([], [])
   | i, nIds, (s, e, d) :: rest =>
     if d ≠ 0 then
-      match emitRows m segCount (i + 1) nIds rest with
+      match emitRows mr segCount (i + 1) nIds rest with
       | none => none
       | some (rows, g) => some ((s, e, d, 0) :: rows, g)
     else
-      match glyphIdsFor m s e with
+      match glyphIdsFor mr s e with
       | none => none
       | some chunk =>
-        match emitRows m segCount (i + 1) (nIds + chunk.length) rest with
+        match emitRows mr segCount (i + 1) (nIds + chunk.length) rest with
         | none => none
         | some (rows, g) => some ((s, e, 0, (((segCount - i) + nIds) * 2) % 65536) :: rows, chunk ++ g)
 
@@ -206,7 +210,7 @@ def build4With (h : Heur) (l : List (Nat × Nat)) : Out Cmap4 :=
   | some ranges =>
     if ranges.length > 65535 then .trap            -- `self.seg_count += 1` in u16
     else
-      match emitRows l ranges.length 0 0 ranges with
+      match emitRows l.reverse ranges.length 0 0 ranges with
       | none => .err "other"
       | some (rows, g) =>
         let t := tableOfRows rows g
@@ -270,5 +274,400 @@ def serialize12 (language : Nat) (l : List (Nat × Nat)) : Out (List Nat) :=
   | none => .trap
   | some gs =>
     if 16 + gs.length * 12 > 4294967295 then .err "int-overflow" else .ok (bytes12 12 language gs)
+
+/-! ## `CollectUnicodes`: which code points a source subtable maps to a real glyph
+
+`IntSet<u32>` is modelled as a list used as a set while it is built (`insert_range` prepends, `remove`
+filters) and as a sorted array with binary-search membership once complete (`mkSet` / `memSet`). -/
+
+/-- a finished set: ascending array -/
+def mkSet (l : List Nat) : Array Nat := (l.mergeSort (· ≤ ·)).toArray
+
+def memSetGo (a : Array Nat) (x : Nat) : Nat → Nat → Nat → Bool
+  | 0, _, _ => false
+  | fuel + 1, lo, hi =>
+    if lo < hi then
+      let mid := (lo + hi) / 2
+      let v := a[mid]?.getD 0
+      if v = x then true
+      else if v < x then memSetGo a x fuel (mid + 1) hi
+      else memSetGo a x fuel lo mid
+    else false
+
+/-- `IntSet::contains` -/
+def memSet (a : Array Nat) (x : Nat) : Bool := memSetGo a x (a.size + 1) 0 a.size
+
+def insertRange (out : List Nat) (lo hi : Nat) : List Nat := List.range' lo (hi + 1 - lo) ++ out
+
+/-- the `for cp in start..=end` loop of the `range_offset != 0` branch: the code points to remove.
+`index = (range_offset / 2 + (cp - start) + i).wrapping_sub(seg_count)` in `u32`. -/
+def roRemoved (arr : Array Nat) (ro start i segCount end_ : Nat) : Nat → Nat → List Nat
+  | 0, _ => []
+  | k + 1, cp =>
+    let index := (ro / 2 + (cp - start) + i + 4294967296 - segCount) % 4294967296
+    if index ≥ arr.size then List.range' cp (end_ + 1 - cp)            -- remove_range(cp..=end); break
+    else if arr[index]?.getD 0 = 0 then cp :: roRemoved arr ro start i segCount end_ k (cp + 1)
+    else roRemoved arr ro start i segCount end_ k (cp + 1)
+
+/-- `Cmap4::collect_unicodes`: segments `i, i+1, …` -/
+def collect4Go (t : Cmap4) (segCount : Nat) : Nat → List (Nat × Nat × Nat) → List Nat → List Nat
+  | _, [], out => out
+  | i, (start, end_, ro) :: rest, out =>
+    if start = 0xFFFF then out
+    else
+      let out := insertRange out start end_
+      let removed : List Nat :=
+        if ro = 0 then
+          (List.range' start (end_ + 1 - start)).filter
+            (fun cp => wrapU16 ((cp : Int) + (t.idDelta[i]?.getD 0)) == 0)
+        else roRemoved t.glyphIdArray ro start i segCount end_ (end_ + 1 - start) start
+      collect4Go t segCount (i + 1) rest (if removed.isEmpty then out else out.filter (fun c => !removed.contains c))
+
+def collect4 (t : Cmap4) : List Nat :=
+  let n := min t.startCode.size (min t.endCode.size t.idRangeOffsets.size)
+  let segs := (List.range n).map (fun i =>
+    (t.startCode[i]?.getD 0, t.endCode[i]?.getD 0, t.idRangeOffsets[i]?.getD 0))
+  -- `seg_count = seg_count_x2 / 2` = length of each array as read-fonts slices them
+  collect4Go t t.startCode.size 0 segs []
+
+/-- `Cmap12::collect_unicodes` (wrapping `u32` arithmetic as in the source) -/
+def collect12 (groups : List Group) (numGlyphs : Nat) : List Nat :=
+  groups.foldl (fun out g =>
+    let start := g.1
+    let end_ := min g.2.1 0x10FFFF
+    let gid := g.2.2
+    let start := if gid = 0 then (start + 1) % 4294967296 else start
+    let gid := if gid = 0 then gid + 1 else gid
+    if gid ≥ numGlyphs then out
+    else
+      let end_ :=
+        if (gid + end_ + 4294967296 - start) % 4294967296 ≥ numGlyphs then
+          min 0x10FFFF ((start + numGlyphs % 4294967296 + 4294967296 - gid) % 4294967296)
+        else end_
+      insertRange out start end_) []
+
+/-! ## format 14 -/
+
+/-- a `VariationSelector` record with its tables resolved
+(`record.default_uvs(..).transpose().ok().flatten()`: `none` = null offset or unreadable) -/
+structure VarSelIn where
+  selector : Nat
+  defaults : Option (List (Nat × Nat))       -- (start, additional count)
+  nonDefaults : Option (List (Nat × Nat))    -- (unicode value, glyph id)
+deriving Repr, DecidableEq
+
+/-- what the cmap subsetter reads of the plan -/
+structure PlanIn where
+  unicodes : List Nat              -- `plan.unicodes`, ascending
+  u2g : List (Nat × Nat)           -- `plan.unicode_to_new_gid_list`
+  glyphsRequested : List Nat       -- `plan.glyphs_requested`
+  glyphMap : List (Nat × Nat)      -- `plan.glyph_map` old → new
+  numGlyphs : Nat                  -- `plan.font_num_glyphs`
+deriving Repr
+
+def lookupMap (m : List (Nat × Nat)) (k : Nat) : Option Nat := (m.find? (fun p => p.1 == k)).map (·.2)
+
+/-- `copy_non_default_uvs`: `none` = the `glyph_map.get(..).unwrap()` panic; else the retained
+mappings as bytes (count excluded) and their number -/
+def copyNonDefault (p : PlanIn) : List (Nat × Nat) → Option (List Nat × Nat)
+  | [] => some ([], 0)
+  | (u, g) :: rest =>
+    if !p.unicodes.contains u && !p.glyphsRequested.contains g then copyNonDefault p rest
+    else
+      match lookupMap p.glyphMap g with
+      | none => none
+      | some ng =>
+        match copyNonDefault p rest with
+        | none => none
+        | some (b, n) => some (be24 u ++ be16 (ng % 65536) ++ b, n + 1)
+
+/-- number of bits of `org_num_range as u32`: `32 - leading_zeros` -/
+def numBits (n : Nat) : Nat := if n = 0 then 0 else Nat.log2 n + 1
+
+/-- the comparison closure of the "few unicodes" branch (after fix 2e8ae31: range containment) -/
+def uvsContainCmp (r : Nat × Nat) (u : Nat) : Ordering :=
+  if u < r.1 then .gt else if u > r.1 + r.2 then .lt else .eq
+
+/-- first branch of `copy_default_uvs` (`org_num_range > |unicodes| * num_bits`): walk the plan's
+unicodes; state (start, end), `INVALID` = none yet.  Emits (start, end - start as u8) records. -/
+def defaultFew (ranges : List (Nat × Nat)) : Nat → Nat → List Nat → List (Nat × Nat)
+  | start, end_, [] => if start ≠ INVALID then [(start, (end_ - start) % 256)] else []
+  | start, end_, u :: rest =>
+    match Layout.binarySearchBy ranges.length (fun i => uvsContainCmp (ranges[i]?.getD (0, 0)) u) with
+    | .err _ => defaultFew ranges start end_ rest
+    | .ok _ =>
+      if start = INVALID then defaultFew ranges u u rest
+      else if end_ + 1 ≠ u ∨ end_ - start = 255 then
+        (start, (end_ - start) % 256) :: defaultFew ranges u u rest
+      else defaultFew ranges start u rest
+
+/-- `plan.unicodes.iter_after(cur).next()` -/
+def nextAfter (us : List Nat) (cur : Nat) : Option Nat := us.find? (fun u => u > cur)
+
+/-- the `while let Some(entry) = plan.unicodes.iter_after(cur_entry).next()` loop of the second branch
+for one original range; state (last_code, count), returns emitted records and the new state -/
+def defaultManyRange (us : List Nat) (end_ : Nat) : Nat → Nat → Nat → Nat → List (Nat × Nat) × Nat × Nat
+  | 0, _, lastCode, count => ([], lastCode, count)
+  | fuel + 1, cur, lastCode, count =>
+    match nextAfter us cur with
+    | none => ([], lastCode, count)
+    | some entry =>
+      if entry ≥ end_ then ([], lastCode, count)
+      else if lastCode = INVALID then defaultManyRange us end_ fuel entry entry count
+      else if lastCode + count ≠ entry then
+        let r := defaultManyRange us end_ fuel entry entry 0
+        ((lastCode, count) :: r.1, r.2)
+      else defaultManyRange us end_ fuel entry lastCode (count + 1)
+
+/-- second branch of `copy_default_uvs`; `none` = `start_unicode_value - 1` underflows (start 0) -/
+def defaultMany (us : List Nat) : List (Nat × Nat) → Nat → Nat → Option (List (Nat × Nat))
+  | [], lastCode, count => some (if lastCode ≠ INVALID then [(lastCode, count)] else [])
+  | (start, addl) :: rest, lastCode, count =>
+    if start = 0 then none
+    else
+      let cur := start - 1
+      let end_ := cur + addl + 2
+      let r := defaultManyRange us end_ (addl + 2) cur lastCode count
+      match defaultMany us rest r.2.1 r.2.2 with
+      | none => none
+      | some more => some (r.1 ++ more)
+
+/-- `copy_default_uvs`: the retained ranges (start, additional count) -/
+def copyDefault (p : PlanIn) (ranges : List (Nat × Nat)) : Option (List (Nat × Nat)) :=
+  if ranges.length > p.unicodes.length * numBits ranges.length then some (defaultFew ranges INVALID INVALID p.unicodes)
+  else defaultMany p.unicodes ranges INVALID 0
+
+/-! ## the serializer: objects packed from the tail, identical objects shared -/
+
+/-- a packed object: bytes and 32-bit links (position in the object, index of the target object),
+both `OffsetWhence::Head` -/
+structure Obj where
+  bytes : List Nat
+  links : List (Nat × Nat)
+deriving Repr, DecidableEq
+
+/-- `pop_pack(true)`: index of an identical packed object, else append -/
+def packShared (packed : List Obj) (o : Obj) : List Obj × Nat :=
+  match packed.findIdx? (· == o) with
+  | some i => (packed, i)
+  | none => (packed ++ [o], packed.length)
+
+/-- `Cmap14::serialize`: the packed objects (children first, then nothing for the table itself — the
+table object is returned separately) . `none` = trap.  Result: the cmap14 object, or `none` when it
+subsets to empty. -/
+def serialize14Go (p : PlanIn) : List VarSelIn → List Obj → Option (List Obj × List (VarSelIn × Option Nat × Option Nat))
+  | [], packed => some (packed, [])
+  | r :: rest, packed =>
+    -- records are processed in reverse order: the tail first
+    match serialize14Go p rest packed with
+    | none => none
+    | some (packed, done) =>
+      -- non-default UVS first
+      let nd : Option (List Obj × Option Nat) :=
+        match r.nonDefaults with
+        | none => some (packed, none)
+        | some maps =>
+          match copyNonDefault p maps with
+          | none => none
+          | some (b, n) =>
+            if n = 0 then some (packed, none)
+            else
+              let (pk, i) := packShared packed { bytes := be32 n ++ b, links := [] }
+              some (pk, some i)
+      match nd with
+      | none => none
+      | some (packed, ndIdx) =>
+        let df : Option (List Obj × Option Nat) :=
+          match r.defaults with
+          | none => some (packed, none)
+          | some ranges =>
+            match copyDefault p ranges with
+            | none => none
+            | some rs =>
+              if rs.isEmpty then some (packed, none)
+              else
+                let (pk, i) := packShared packed
+                  { bytes := be32 rs.length ++ rs.flatMap (fun x => be24 x.1 ++ [x.2 % 256]), links := [] }
+                some (pk, some i)
+        match df with
+        | none => none
+        | some (packed, dfIdx) => some (packed, (r, dfIdx, ndIdx) :: done)
+
+def objSize (o : Obj) : Nat := o.bytes.length
+
+def serialize14 (p : PlanIn) (recs : List VarSelIn) (packed : List Obj) : Out (List Obj × Option Obj) :=
+  let retained := recs.filter (fun r => p.unicodes.contains r.selector)
+  match serialize14Go p retained packed with
+  | none => .trap
+  | some (packed', done) =>
+    let kept := done.filter (fun x => x.2.1.isSome || x.2.2.isSome)
+    if kept.isEmpty then .ok (packed, none)          -- "subsetted to empty": revert the snapshot
+    else
+      let tailLen := ((packed'.drop packed.length).map objSize).sum
+      let recBytes := kept.flatMap (fun x => be24 x.1.selector ++ be32 0 ++ be32 0)
+      let links : List (Nat × Nat) := (kept.zipIdx).flatMap (fun (x, k) =>
+        (match x.2.1 with | some i => [(10 + 11 * k + 3, i)] | none => []) ++
+        (match x.2.2 with | some i => [(10 + 11 * k + 7, i)] | none => []))
+      let len := 10 + 11 * kept.length + tailLen
+      .ok (packed', some { bytes := be16 14 ++ be32 len ++ be32 kept.length ++ recBytes, links := links })
+
+/-! ## `Cmap::subset` / `serialize_cmap` -/
+
+inductive SubIn where
+  | f4 (language : Nat) (t : Cmap4)
+  | f12 (language : Nat) (groups : List Group)
+  | f14 (recs : List VarSelIn)
+  | other (format language : Nat)
+  | unreadable
+deriving Repr
+
+structure RecIn where
+  platform : Nat
+  encoding : Nat
+  sub : SubIn
+deriving Repr
+
+def SubIn.format? : SubIn → Option Nat
+  | .f4 _ _ => some 4
+  | .f12 _ _ => some 12
+  | .f14 _ => some 14
+  | .other f _ => some f
+  | .unreadable => none
+
+/-- `CmapSubtable::language` -/
+def SubIn.language : SubIn → Nat
+  | .f4 l _ => l
+  | .f12 l _ => l
+  | .f14 _ => 0
+  | .other _ l => l
+  | .unreadable => 0
+
+/-- `retain_encoding_record_for_subset` -/
+def retainRecord (r : RecIn) : Bool :=
+  (r.platform == 0 && r.encoding == 3) || (r.platform == 0 && r.encoding == 4) ||
+  (r.platform == 3 && r.encoding == 1) || (r.platform == 3 && r.encoding == 10) ||
+  r.sub.format? == some 14
+
+/-- `SubtableUnicodeCache::set_for` -/
+def unicodesOf (s : SubIn) (numGlyphs : Nat) : Array Nat :=
+  match s with
+  | .f4 _ t => mkSet (collect4 t)
+  | .f12 _ gs => mkSet (collect12 gs numGlyphs)
+  | _ => #[]
+
+/-- `can_drop_format12` -/
+def canDropFormat12 (rec : RecIn) (sub12 : List Nat) (retained : List RecIn) (p : PlanIn) : Bool :=
+  if sub12.any (· ≥ 0x10000) then false
+  else
+    let target : Option (Nat × Nat) :=
+      if rec.platform = 0 ∧ rec.encoding = 4 then some (0, 3)
+      else if rec.platform = 3 ∧ rec.encoding = 10 then some (3, 1)
+      else none
+    match target with
+    | none => false
+    | some (tp, te) =>
+      let lang := rec.sub.language
+      match retained.find? (fun r => r.sub.format?.isSome && r.platform == tp && r.encoding == te
+                                      && r.sub.language == lang) with
+      | none => false
+      | some sib =>
+        let sibU := unicodesOf sib.sub p.numGlyphs
+        sub12 == p.unicodes.filter (fun u => memSet sibU u)
+
+/-- serializer state of `serialize_cmap`: the encoding records written so far
+(platform, encoding, object index) and the packed objects -/
+structure CmapSer where
+  records : List (Nat × Nat × Nat)
+  packed : List Obj
+  has12 : Bool
+deriving Repr
+
+/-- the loop of `serialize_cmap` -/
+def serializeCmapGo (p : PlanIn) (all : List RecIn) (dropF4 : Bool) : List RecIn → CmapSer → Out CmapSer
+  | [], st => .ok st
+  | r :: rest, st =>
+    match r.sub with
+    | .unreadable => serializeCmapGo p all dropF4 rest st
+    | .other _ _ => serializeCmapGo p all dropF4 rest st
+    | .f4 lang t =>
+      if dropF4 then serializeCmapGo p all dropF4 rest st
+      else
+        let us := mkSet (collect4 t)
+        let list := p.u2g.filter (fun x => memSet us x.1)
+        match serialize4 lang list with
+        | .trap => .trap
+        | .err e => .err e
+        | .ok [] => serializeCmapGo p all dropF4 rest st
+        | .ok bytes =>
+          let (pk, i) := packShared st.packed { bytes := bytes, links := [] }
+          serializeCmapGo p all dropF4 rest { st with records := st.records ++ [(r.platform, r.encoding, i)], packed := pk }
+    | .f12 lang gs =>
+      let us := mkSet (collect12 gs p.numGlyphs)
+      let sub12 := p.unicodes.filter (fun u => memSet us u)
+      -- (after fix: format 12 is never dropped as redundant once the format 4 subtables are being dropped)
+      if !dropF4 && canDropFormat12 r sub12 all p then serializeCmapGo p all dropF4 rest st
+      else
+        let sub12Set := mkSet sub12
+        let list := p.u2g.filter (fun x => memSet sub12Set x.1)
+        match serialize12 lang list with
+        | .trap => .trap
+        | .err e => .err e
+        | .ok bytes =>
+          let (pk, i) := packShared st.packed { bytes := bytes, links := [] }
+          serializeCmapGo p all dropF4 rest
+            { records := st.records ++ [(r.platform, r.encoding, i)], packed := pk, has12 := true }
+    | .f14 recs =>
+      match serialize14 p recs st.packed with
+      | .trap => .trap
+      | .err e => .err e
+      | .ok (_, none) => serializeCmapGo p all dropF4 rest st
+      | .ok (pk, some o) =>
+        let (pk, i) := packShared pk o
+        serializeCmapGo p all dropF4 rest { st with records := st.records ++ [(r.platform, r.encoding, i)], packed := pk }
+
+/-- final layout: the main object first, then the packed objects, last packed first; link offsets are
+`child.head - parent.head` -/
+def layoutCmap (st : CmapSer) : List Nat :=
+  let mainLen := 4 + 8 * st.records.length
+  let total := mainLen + (st.packed.map objSize).sum
+  -- head of packed object k
+  let headOf (k : Nat) : Nat := total - ((st.packed.take (k + 1)).map objSize).sum
+  let main := be16 0 ++ be16 st.records.length ++
+    st.records.flatMap (fun r => be16 r.1 ++ be16 r.2.1 ++ be32 (headOf r.2.2))
+  let patch (k : Nat) (o : Obj) : List Nat :=
+    o.links.foldl (fun b l =>
+      let off := be32 (headOf l.2 - headOf k)
+      b.take l.1 ++ off ++ b.drop (l.1 + 4)) o.bytes
+  main ++ ((st.packed.zipIdx).reverse.flatMap (fun (o, k) => patch k o))
+
+/-- `serialize_cmap` incl. the retry without format 4 when a format 4 subtable overflows 64 KiB
+(reachable after fix 7720565 and its follow-up) -/
+def serializeCmap (p : PlanIn) (retained : List RecIn) : Out (List Nat) :=
+  let finish (st : CmapSer) (dropF4 : Bool) : Out (List Nat) :=
+    if st.records.length > 65535 then .err "int-overflow"
+    else if dropF4 && !st.has12 then .err "other"
+    else .ok (layoutCmap st)
+  match serializeCmapGo p retained false retained { records := [], packed := [], has12 := false } with
+  | .trap => .trap
+  | .ok st => finish st false
+  | .err "int-overflow" =>
+    match serializeCmapGo p retained true retained { records := [], packed := [], has12 := false } with
+    | .trap => .trap
+    | .err e => .err e
+    | .ok st => finish st true
+  | .err e => .err e
+
+/-- `Cmap::subset`: `.err` = `Err(SubsetTableError(cmap))`, which `subset_font` turns into a subset
+without cmap table (no serializer error) or into a failure (serializer error) -/
+def subsetCmap (recs : List RecIn) (p : PlanIn) : Out (List Nat) :=
+  let retained := recs.filter retainRecord
+  let hasFormat12 := retained.any (fun r => r.sub.format? == some 12)
+  let hasUnicodeBmp := retained.any (fun r => r.platform == 0 && r.encoding == 3)
+  let hasUnicodeUcs4 := retained.any (fun r => r.platform == 0 && r.encoding == 4)
+  let hasMsBmp := retained.any (fun r => r.platform == 3 && r.encoding == 1)
+  let hasMsUcs4 := retained.any (fun r => r.platform == 3 && r.encoding == 10)
+  if !hasFormat12 && !hasUnicodeBmp && !hasMsBmp then .err "no-unicode-record"
+  else if hasFormat12 && !hasUnicodeUcs4 && !hasMsUcs4 then .err "format12-without-ucs4-record"
+  else serializeCmap p retained
 
 end FontVerif.SubsetCmap
